@@ -396,9 +396,16 @@ func runC02(c *eng.Ctx, thorough bool) {
 	}
 	if f := c.Fn("vault.(*Core).HandleRequest"); f != nil {
 		c.Clause("R5", "C02.6")
+		nres := 0
 		for _, r := range eng.Returns(f) {
+			// a refusal that hands back no response discloses nothing
+			if eng.IsNilConst(r.Results[0]) {
+				continue
+			}
+			nres++
 			c.Prov(f, "HandleRequest result", r, r.Results[0], `^call:vault\.\(\*Core\)\.switchedLockHandleRequest#0$`)
 		}
+		c.Floor(f, "returns of HandleRequest that carry a response", nres, 1)
 	}
 
 	// ---------------- C02.4 operation tables
